@@ -167,6 +167,8 @@ class PathCtx:
         self.alternatives = []
         self.live = list(explorer.samples)   # SampleEval objects consistent with the path so far
         self.loose = set()                   # ids of live samples that satisfy some literal only within tolerance
+        self.known_canon = {}                # canonical (polynomial) form of decided comparisons -> value
+        self._pending_canon = None
         self.concretize = None
         self.fresh = {}
         self.symbolic_random = True
@@ -289,6 +291,21 @@ class PathCtx:
             if c is True or c is False:
                 self.known[sb.id] = c
                 return c
+            if c is not None:
+                # the same condition written differently (e.g. by a second implementation) is the same decision
+                ck = (c[0], frozenset(c[1].items()))
+                got = self.known_canon.get(ck)
+                if got is not None:
+                    self.known[sb.id] = got
+                    return got
+                if c[0] != '==':
+                    # p < 0 decided  =>  -p <= 0 decided (and vice versa)
+                    nk = ('<=' if c[0] == '<' else '<', frozenset((m, -v) for m, v in c[1].items()))
+                    got = self.known_canon.get(nk)
+                    if got is not None:
+                        self.known[sb.id] = not got
+                        return not got
+                self._pending_canon = ck
         if sb.op == 'and':
             # evaluate conjuncts one by one (same truth value, fewer composite literals)
             for a in sb.args:
@@ -309,6 +326,10 @@ class PathCtx:
             val = self._new_decision(sb)
         lit = sb if val else snot(sb)
         self.pc.append(lit)
+        ck = getattr(self, '_pending_canon', None)
+        if ck is not None:
+            self.known_canon[ck] = val
+            self._pending_canon = None
         self.known[sb.id] = val
         self.known[snot(sb).id] = not val
         self._filter_live(lit)
